@@ -115,13 +115,14 @@ structure EntryOK (e : Bytes × Bytes) : Prop where
   noNul : ∀ b ∈ e.1, b ≠ 0
   size : e.2.length < 8 ^ 11
 
-/-- the members of an archive, up to the end-of-archive marker (a zero block) -/
-def tarRead : Nat → Bytes → Res (List (Bytes × Bytes))
+/-- the members of an archive, up to the end-of-archive marker (a zero block), and whether the marker is complete (a second
+    zero block follows: what `io/peppi/de.rs` checks before it believes an archive without `frames.arrow`) -/
+def tarRead : Nat → Bytes → Res (List (Bytes × Bytes) × Bool)
   | 0, _ => .err "fuel"
   | fuel+1, bs =>
     if bs.length < 512 then .err "truncated header" else
     let h := bs.take 512
-    if h.all (· == 0) then .ok [] else
+    if h.all (· == 0) then .ok ([], decide (1024 ≤ bs.length) && ((bs.drop 512).take 512).all (· == 0)) else
     let pre := h.take 148
     let ck := (h.drop 148).take 7
     let post := h.drop 156
@@ -133,7 +134,7 @@ def tarRead : Nat → Bytes → Res (List (Bytes × Bytes))
       let body := bs.drop 512
       if body.length < size + padLen size then .err "truncated entry" else
       match tarRead fuel (body.drop (size + padLen size)) with
-      | .ok es => .ok ((name, body.take size) :: es)
+      | .ok (es, t) => .ok ((name, body.take size) :: es, t)
       | .err e => .err e
       | .panic p => .panic p
 
@@ -160,7 +161,7 @@ theorem hdrCksum_lt (name : Bytes) (size : Nat) (hn : name.length ≤ 100) : hdr
 theorem tarRead_entry (fuel : Nat) (e : Bytes × Bytes) (he : EntryOK e) (rest : Bytes) :
     tarRead (fuel + 1) (tarEntry e ++ rest) =
       match tarRead fuel rest with
-      | .ok es => .ok (e :: es)
+      | .ok (es, t) => .ok (e :: es, t)
       | .err x => .err x
       | .panic p => .panic p := by
   obtain ⟨name, data⟩ := e
@@ -225,7 +226,7 @@ theorem tarRead_entry (fuel : Nat) (e : Bytes × Bytes) (he : EntryOK e) (rest :
 /-- **C18, tar round trip**: reading the archive the writer produced for an entry list returns that entry list — same names,
     same contents, same order -/
 theorem tarRead_archive (es : List (Bytes × Bytes)) (hes : ∀ e ∈ es, EntryOK e) (fuel : Nat) (hf : es.length < fuel) :
-    tarRead fuel (tarArchive es) = .ok es := by
+    tarRead fuel (tarArchive es) = .ok (es, true) := by
   induction es generalizing fuel with
   | nil =>
     cases fuel with
@@ -235,7 +236,9 @@ theorem tarRead_archive (es : List (Bytes × Bytes)) (hes : ∀ e ∈ es, EntryO
       have h0 : tarArchive [] = zeros 1024 := rfl
       have h1 : (tarArchive []).take 512 = zeros 512 := by rw [h0]; simp only [zeros, List.take_replicate]; rfl
       have h2 : ¬ (tarArchive []).length < 512 := by rw [h0]; simp only [zeros, List.length_replicate]; omega
-      simp only [h2, ↓reduceIte, h1, zeros_all]
+      have h3 : ((tarArchive []).drop 512).take 512 = zeros 512 := by rw [h0]; simp only [zeros, List.drop_replicate, List.take_replicate]; rfl
+      have h4 : 1024 ≤ (tarArchive []).length := by rw [h0]; simp only [zeros, List.length_replicate]; omega
+      simp only [h2, ↓reduceIte, h1, zeros_all, h3, h4, decide_true, Bool.and_self]
   | cons e t ih =>
     cases fuel with
     | zero => simp at hf
@@ -247,6 +250,20 @@ theorem tarRead_archive (es : List (Bytes × Bytes)) (hes : ∀ e ∈ es, EntryO
 theorem tarEntry_length (e : Bytes × Bytes) (hn : e.1.length ≤ 100) : (tarEntry e).length % 512 = 0 := by
   simp only [tarEntry, List.length_append, tarHeader_length e.1 e.2.length hn, zeros, List.length_replicate, padLen]
   omega
+
+/-- every member takes at least its header block -/
+theorem tarArchive_length_ge (es : List (Bytes × Bytes)) (hn : ∀ e ∈ es, e.1.length ≤ 100) :
+    512 * es.length + 1024 ≤ (tarArchive es).length := by
+  induction es with
+  | nil => show _ ≤ (zeros 1024).length; simp only [zeros, List.length_replicate, List.length_nil]; omega
+  | cons e t ih =>
+    have h1 : tarArchive (e :: t) = tarEntry e ++ tarArchive t := by
+      simp only [tarArchive, List.flatMap_cons, List.append_assoc]
+    have h2 : 512 ≤ (tarEntry e).length := by
+      simp only [tarEntry, List.length_append, tarHeader_length e.1 e.2.length (hn e (by simp))]; omega
+    have := ih (fun e' he' => hn e' (by simp [he']))
+    rw [h1, List.length_append, List.length_cons]
+    omega
 
 #print axioms tarArchive_starts
 #print axioms tarRead_archive
